@@ -138,7 +138,7 @@ var wireScope = map[string][]string{
 	"C14": {"cmd.infoKeyCmdConv", "cmd.getScale"},
 	"C15": {"input.ChordMetaTextMotifier", "note.Note.AddDegree", "note.ParseDegree", "note.NewDegree", "note.Note.Semitone", "chord.Attribute.Semitone", "desc.Attribute.Describe", "cmd.infoCmdAttrDescribe", "cmd.getRootNote", "chord.Map.GetAttribute", "chord.GenerateAttributes"},
 	"C16": {"cmd.genCmdAttr", "chord.", "desc.Chord.Describe", "desc.Attribute.Describe", "cmd.infoCmdChordDescribe", "cmd.newChordMap"},
-	"C17": {"desc.Key.Describe", "op.DiatonicChorderImpl.", "cmd.infoKeyCmdDescribe", "op.Scale.", "op.ScaleNote.Semitone", "cmd.getScale", "chord.Map."},
+	"C17": {"astconv.SyllableChordConverter.", "op.ScaleNote.GetDegree", "desc.Key.Describe", "op.DiatonicChorderImpl.", "cmd.infoKeyCmdDescribe", "op.Scale.", "op.ScaleNote.Semitone", "cmd.getScale", "chord.Map."},
 }
 
 // otherScope: scopes of other shared rules, property -> rule -> construct-key patterns (prefix, or *substring).
